@@ -556,6 +556,86 @@ func poolHistory(failCut, aCut int) (msg string) {
 	return ""
 }
 
+// truncation: the framed stream ends after cut bytes. The packets that fit are read back; then the stream reports
+// its end: io.EOF exactly at a frame boundary, some error - never a packet - inside a frame.
+func truncation(pkts []*types.Packet, wire []byte, ends []int, cut int, fresh bool) (msg string) {
+	defer func() {
+		if r := recover(); r != nil {
+			msg = fmt.Sprintf("panic: %v", r)
+		}
+	}()
+	if fresh {
+		// two collections empty every sync.Pool: the stream starts with the pool's default buffer, not with a larger
+		// one an earlier stream left there
+		runtime.GC()
+		runtime.GC()
+	}
+	rd := util.NewProtoStream(context.Background(), bytes.NewReader(wire[:cut]), nil)
+	for i := range pkts {
+		var got types.Packet
+		err := rd.RecvMsg(&got)
+		start := 0
+		if i > 0 {
+			start = ends[i-1]
+		}
+		switch {
+		case ends[i] <= cut:
+			if err != nil || !pktEq(&got, pkts[i]) {
+				return fmt.Sprintf("packet #%d lies completely before the cut but reads back as %v", i, err)
+			}
+		case cut == start:
+			if err != io.EOF {
+				return fmt.Sprintf("the stream ends exactly before packet #%d: RecvMsg returned %v, want io.EOF", i, err)
+			}
+			return ""
+		default:
+			if err == nil {
+				return fmt.Sprintf("the stream ends %d bytes into packet #%d (of %d bytes), yet RecvMsg returned a packet (type %v id %d, %d data bytes)", cut-start, i, ends[i]-start, got.Type, got.ID, len(got.Data))
+			}
+			// (which error is not fixed: a cut right after a length prefix reads as io.EOF today)
+			return ""
+		}
+	}
+	return ""
+}
+
+// resend: one packet object is sent, changed and sent again (and again); what is read back is each value as it was sent.
+func resend(sizes []int) (msg string) {
+	defer func() {
+		if r := recover(); r != nil {
+			msg = fmt.Sprintf("panic: %v", r)
+		}
+	}()
+	var wire bytes.Buffer
+	w := util.NewProtoStream(context.Background(), nil, &wire)
+	p := &types.Packet{Type: types.PACKET_DATA, ID: 5}
+	var want []*types.Packet
+	for i, n := range sizes {
+		p.Data = bytes.Repeat([]byte{byte(i + 1)}, n)
+		p.ID = uint32(5 + i)
+		if i%2 == 1 {
+			p.Stat = &types.Stat{Path: strings.Repeat("p", n%50)}
+		} else {
+			p.Stat = nil
+		}
+		want = append(want, p.CloneVT())
+		if err := w.SendMsg(p); err != nil {
+			return fmt.Sprintf("SendMsg #%d of a re-used packet object: %v", i, err)
+		}
+	}
+	rd := util.NewProtoStream(context.Background(), &wire, nil)
+	for i := range want {
+		var got types.Packet
+		if err := rd.RecvMsg(&got); err != nil {
+			return fmt.Sprintf("RecvMsg #%d after re-using one packet object for sending: %v", i, err)
+		}
+		if !pktEq(&got, want[i]) {
+			return fmt.Sprintf("packet #%d sent from a re-used packet object reads back differently", i)
+		}
+	}
+	return ""
+}
+
 func compositionsUpTo(n int, f func(c []int)) {
 	var rec func(rest int, cur []int)
 	rec = func(rest int, cur []int) {
@@ -576,6 +656,60 @@ func runC20(r *evid.Run) {
 	r.Assume = []string{"google.golang.org/protobuf is the reference generic runtime", "over-allocation is judged by decoded payload size <= input size"}
 	var n atomic.Int64
 	quick := r.Tier == "quick"
+	// The proto stream keeps receive buffers in a process-wide pool, so what a stream does can depend on what other
+	// streams did before: the truncation and re-send cases run first (fresh pool) and again at the end.
+	small := []*types.Packet{{}, {Type: types.PACKET_REQ, ID: 1}, {Type: types.PACKET_FIN}}
+	big := []*types.Packet{{Type: types.PACKET_DATA, ID: 1, Data: bytes.Repeat([]byte{1}, 32768-8)}, {}, {Type: types.PACKET_DATA, ID: 2, Data: bytes.Repeat([]byte{2}, 32768)},
+		{Type: types.PACKET_DATA, ID: 3, Data: bytes.Repeat([]byte{3}, 32769)}, {Type: types.PACKET_STAT, Stat: &types.Stat{Path: "p", Xattrs: map[string][]byte{"k": bytes.Repeat([]byte{4}, 70000)}}}, {Type: types.PACKET_FIN}}
+	truncAndResend := func(when string) {
+		// streams that end early: every cut position of the short stream, and of the long one every position within
+		// 16 bytes of a frame boundary plus a stride through the bodies; and one packet object re-used for sending
+		{
+			frameAll := func(ps []*types.Packet) ([]byte, []int) {
+				var w bytes.Buffer
+				st := util.NewProtoStream(context.Background(), nil, &w)
+				var ends []int
+				for _, p := range ps {
+					if err := st.SendMsg(p); err != nil {
+						panic(err)
+					}
+					ends = append(ends, w.Len())
+				}
+				return w.Bytes(), ends
+			}
+			cnt := int64(0)
+			for _, ps := range [][]*types.Packet{small, big} {
+				wire, ends := frameAll(ps)
+				cuts := map[int]bool{}
+				for c := 0; c <= len(wire); c++ {
+					near := len(wire) < 200
+					for _, e := range append([]int{0}, ends...) {
+						if c >= e-16 && c <= e+16 {
+							near = true
+						}
+					}
+					if near || c%1999 == 0 {
+						cuts[c] = true
+					}
+				}
+				for c := range cuts {
+					if m := truncation(ps, wire, ends, c, when == "first"); m != "" {
+						r.Violate("truncated:"+firstWord(m), fmt.Sprintf("(%s in the process) stream of %d bytes cut after %d: %s", when, len(wire), c, m), c20Case{Kind: "truncated", Pkts: encAll(ps), Cuts: []int{c}})
+					}
+					cnt++
+				}
+			}
+			for _, sz := range [][]int{{100, 10, 300}, {10, 100}, {40000, 5, 40000}, {0, 1, 0}, {33000, 32000}} {
+				if m := resend(sz); m != "" {
+					r.Violate("resend:"+firstWord(m), fmt.Sprintf("data sizes %v: %s", sz, m), c20Case{Kind: "resend", Cuts: sz})
+				}
+				cnt++
+			}
+			n.Add(cnt)
+			r.Add("truncation_and_resend_cases_"+when, cnt)
+		}
+	}
+	truncAndResend("first")
 
 	// (a) round trips
 	stats := statValues()
@@ -738,7 +872,6 @@ func runC20(r *evid.Run) {
 	r.Add("valid_encodings_mutated", int64(len(valid)))
 
 	// (c) framing
-	small := []*types.Packet{{}, {Type: types.PACKET_REQ, ID: 1}, {Type: types.PACKET_FIN}}
 	var total int
 	for _, p := range small {
 		total += 4 + p.SizeVT()
@@ -760,8 +893,6 @@ func runC20(r *evid.Run) {
 		})
 		r.Add("fragmentations_short_stream", int64(len(all)))
 	}
-	big := []*types.Packet{{Type: types.PACKET_DATA, ID: 1, Data: bytes.Repeat([]byte{1}, 32768-8)}, {}, {Type: types.PACKET_DATA, ID: 2, Data: bytes.Repeat([]byte{2}, 32768)},
-		{Type: types.PACKET_DATA, ID: 3, Data: bytes.Repeat([]byte{3}, 32769)}, {Type: types.PACKET_STAT, Stat: &types.Stat{Path: "p", Xattrs: map[string][]byte{"k": bytes.Repeat([]byte{4}, 70000)}}}, {Type: types.PACKET_FIN}}
 	if m := framing(big, nil); m != "" {
 		r.Violate("framing:"+firstWord(m), "unfragmented long stream: "+m, c20Case{Kind: "framing", Pkts: encAll(big)})
 	} else {
@@ -824,6 +955,7 @@ func runC20(r *evid.Run) {
 		})
 		r.Add("duplex_cases", int64(len(dcs)))
 	}
+	truncAndResend("late")
 	// (e) histories through an error path: on one P with the collector off, so that a pool hands back exactly what
 	// the failed stream left in it
 	{
@@ -894,6 +1026,31 @@ func replayC20(raw json.RawMessage) string {
 			return err.Error()
 		}
 		return roundTripPacket(&p)
+	case "resend":
+		return resend(c.Cuts)
+	case "truncated":
+		var ps []*types.Packet
+		for _, b := range c.Pkts {
+			p := &types.Packet{}
+			if err := p.UnmarshalVT(b); err != nil {
+				return err.Error()
+			}
+			ps = append(ps, p)
+		}
+		var w bytes.Buffer
+		st := util.NewProtoStream(context.Background(), nil, &w)
+		var ends []int
+		for _, p := range ps {
+			st.SendMsg(p)
+			ends = append(ends, w.Len())
+		}
+		if len(c.Cuts) != 1 || c.Cuts[0] > w.Len() {
+			return "bad case"
+		}
+		if m := truncation(ps, w.Bytes(), ends, c.Cuts[0], true); m != "" {
+			return m
+		}
+		return truncation(ps, w.Bytes(), ends, c.Cuts[0], false)
 	case "pool-history":
 		if len(c.Cuts) != 2 {
 			return "bad case"
